@@ -351,8 +351,26 @@ func checkC10(c *h.Check) {
 		cs := caseFromProgram("C10/struct-both-forms", &ir.Program{Root: p, Injectors: []*ir.Injector{inj}}, true, map[string]bool{"wiring": true})
 		cases = append(cases, cs)
 	}
+	// (d) sets shared between several injectors of one package, and sets reached through a chain of packages
+	for order := 0; order < 3; order++ {
+		for bf := 0; bf < 2; bf++ {
+			for ek := 0; ek < 3; ek++ {
+				prog := sharedBaseProgram(order, bf == 1, ek)
+				cs := caseFromProgram(fmt.Sprintf("C10/shared-base/order=%d/basefirst=%d/ext=%d", order, bf, ek), prog, true, map[string]bool{"wiring": true})
+				if c.NoteProgram(cs.Files) {
+					cases = append(cases, cs)
+				}
+			}
+		}
+	}
+	for levels := 2; levels <= 4; levels++ {
+		cs := caseFromProgram(fmt.Sprintf("C10/package-chain/levels=%d", levels), deepChainProgram(levels, false), true, map[string]bool{"wiring": true})
+		if c.NoteProgram(cs.Files) {
+			cases = append(cases, cs)
+		}
+	}
 	results := c.JudgeAll(cases)
-	stdCoverage(c, cases, results, "well-formed bases (4-5 direct items covering value, interface value, parameter, function, struct value/pointer, field, pointer-to-field, binding; thorough adds a 6-item base): ALL permutations of the Build arguments (bindings move with their provider; quick tier: a FieldsOf also moves with the provider of its struct; inner order flipped too); ALL set partitions of the items (Bell(n)) x wrap mode {named set, set nested two deep, inline NewSet, set declared in another package, same variable name declared in two packages} x both argument orders. Every variant must be accepted, and its execution trace must match the model's wiring (which does not depend on order or grouping): a differential oracle against the base. Distinct = distinct rendered source.")
+	stdCoverage(c, cases, results, "(d) three injectors over a base set and a set extending it (every declaration order, base first or last, three kinds of extension), and sets reached through a chain of 2-4 packages of which the injector's package imports only the first; well-formed bases (4-5 direct items covering value, interface value, parameter, function, struct value/pointer, field, pointer-to-field, binding; thorough adds a 6-item base): ALL permutations of the Build arguments (bindings move with their provider; quick tier: a FieldsOf also moves with the provider of its struct; inner order flipped too); ALL set partitions of the items (Bell(n)) x wrap mode {named set, set nested two deep, inline NewSet, set declared in another package, same variable name declared in two packages} x both argument orders. Every variant must be accepted, and its execution trace must match the model's wiring (which does not depend on order or grouping): a differential oracle against the base. Distinct = distinct rendered source.")
 	c.Coverage["variant_kinds"] = kinds.summary()
 	sampleCase(c, cases, results)
 	if len(cases) < 500 {
